@@ -56,4 +56,227 @@ def encName (n : Name) : Bytes := encTL 7 ++ encTL (encNameInner n).length ++ en
 def hashInputComp (c : Component) : Bytes := be 8 c.typ ++ be 8 c.val.length ++ c.val
 def hashInput (n : Name) : Bytes := n.flatMap hashInputComp
 
+
+/-! ## Decoders: `ReadComponent`, `ReadName`, `NameFromBytes`, `ComponentFromBytes`
+    (BufferReader over a contiguous buffer).  `none` = error return (never a panic). -/
+
+/-- `ReadComponent` on the remaining bytes: `none` on any error (incl. clean EOF). -/
+def readComp (b : Bytes) : Option (Component × Bytes) :=
+  match decTL b with
+  | none => none
+  | some (t, r1) =>
+    match decTL r1 with
+    | none => none
+    | some (l, r2) => if r2.length < l then none else some (⟨t, r2.take l⟩, r2.drop l)
+
+theorem readComp_lt {b r : Bytes} {c : Component} (h : readComp b = some (c, r)) : r.length < b.length := by
+  unfold readComp at h
+  split at h; · simp at h
+  rename_i t r1 h1
+  split at h; · simp at h
+  rename_i l r2 h2
+  split at h; · simp at h
+  simp at h
+  have := decTL_rest_lt h1
+  have := decTL_rest_lt h2
+  rw [← h.2]; simp; omega
+
+/-- `ReadName`: components until clean EOF; an error in the middle fails the whole name. -/
+def readName (b : Bytes) : Option Name :=
+  if hb : b = [] then some []
+  else match h : readComp b with
+    | none => none
+    | some (c, r) => (readName r).map (c :: ·)
+termination_by b.length
+decreasing_by exact readComp_lt h
+
+/-- `NameFromBytes`: outer type must be 7, the declared length must equal the rest. -/
+def nameFromBytes (b : Bytes) : Option Name :=
+  match decTL b with
+  | none => none
+  | some (t, r1) =>
+    if t ≠ 7 then none else
+    match decTL r1 with
+    | none => none
+    | some (l, r2) =>
+      match readName r2 with
+      | none => none
+      | some n => if l = r2.length then some n else none
+
+/-- `ComponentFromBytes` = one `ReadComponent`; trailing bytes are ignored by the Go code. -/
+def compFromBytes (b : Bytes) : Option Component := (readComp b).map (·.1)
+
+/-! ## URI text form.  Go strings are byte strings; all tests are on ASCII bytes. -/
+
+def isAlpha (c : Nat) : Bool := (97 ≤ c && c ≤ 122) || (65 ≤ c && c ≤ 90)
+def isDigit (c : Nat) : Bool := 48 ≤ c && c ≤ 57
+/-- `isLegalCompText` -/
+def isLegal (c : Nat) : Bool := isAlpha c || isDigit c || c == 45 || c == 95 || c == 46 || c == 126
+/-- the four characters `% = / \` -/
+def isSpecial (c : Nat) : Bool := c == 37 || c == 61 || c == 47 || c == 92
+
+def hexUp (n : Nat) : Nat := if n < 10 then 48 + n else 55 + n     -- %02X
+def hexLo (n : Nat) : Nat := if n < 10 then 48 + n else 87 + n     -- %02x
+def hexDig (c : Nat) : Option Nat :=
+  if 48 ≤ c ∧ c ≤ 57 then some (c - 48)
+  else if 97 ≤ c ∧ c ≤ 102 then some (c - 87)
+  else if 65 ≤ c ∧ c ≤ 70 then some (c - 55)
+  else none
+
+/-- `compValFmtText.ToString` -/
+def textToStr (v : Bytes) : Bytes :=
+  v.flatMap fun b => if isLegal b then [b] else [37, hexUp (b / 16), hexUp (b % 16)]
+
+/-- the decoding loop of `compValFmtText.FromString` -/
+def textLoop : Bytes → Option Bytes
+  | [] => some []
+  | c :: rest =>
+    if isLegal c then (textLoop rest).map (c :: ·)
+    else match c, rest with
+      | 37, a :: b :: rest' =>
+        match hexDig a, hexDig b with
+        | some x, some y => (textLoop rest').map ((x * 16 + y) :: ·)
+        | _, _ => none
+      | c, rest => if isSpecial c then none else (textLoop rest).map (c :: ·)
+
+/-- `compValFmtText.FromString` -/
+def textFromStr (s : Bytes) : Option Bytes :=
+  if s.any isSpecial then textLoop s else some s
+
+/-- decimal digits of a number (`strconv.FormatUint(x, 10)`) -/
+def decStr (n : Nat) : Bytes :=
+  if h : n < 10 then [48 + n] else decStr (n / 10) ++ [48 + n % 10]
+termination_by n
+decreasing_by omega
+
+/-- `strconv.ParseUint(s, 10, 64)`: non-empty, digits only, value < 2^64 -/
+def parseDec (s : Bytes) : Option Nat :=
+  if s = [] ∨ ¬ s.all isDigit then none
+  else
+    let v := s.foldl (fun acc c => acc * 10 + (c - 48)) 0
+    if v < 2 ^ 64 then some v else none
+
+/-- `compValFmtDec.ToString`: big-endian value reduced mod 2^64 (uint64 shifts) -/
+def decToStr (v : Bytes) : Bytes := decStr (v.foldl (fun acc b => (acc * 256 + b) % 2 ^ 64) 0)
+/-- `compValFmtDec.FromString` -/
+def decFromStr (s : Bytes) : Option Bytes := (parseDec s).map encNat
+
+def hexToStr (v : Bytes) : Bytes := v.flatMap fun b => [hexLo (b / 16), hexLo (b % 16)]
+def hexPairs : Bytes → Option Bytes
+  | [] => some []
+  | [_] => none
+  | a :: b :: rest =>
+    match hexDig a, hexDig b with
+    | some x, some y => (hexPairs rest).map ((x * 16 + y) :: ·)
+    | _, _ => none
+def hexFromStr (s : Bytes) : Option Bytes := if s.length % 2 ≠ 0 then none else hexPairs s
+
+inductive VFmt | text | dec | hex
+deriving DecidableEq, Repr
+
+def asciiBytes (s : String) : Bytes := s.toList.map Char.toNat
+
+/-- the convention table `compConvByType` (type, name, value format) -/
+def conventions : List (Nat × Bytes × VFmt) :=
+  [ (1, asciiBytes "sha256digest", .hex), (2, asciiBytes "params-sha256", .hex),
+    (0x32, asciiBytes "seg", .dec), (0x34, asciiBytes "off", .dec), (0x36, asciiBytes "v", .dec),
+    (0x38, asciiBytes "t", .dec), (0x3a, asciiBytes "seq", .dec) ]
+
+def convByType (t : Nat) : Option (Bytes × VFmt) := (conventions.find? (·.1 == t)).map (·.2)
+def convByName (s : Bytes) : Option (Nat × VFmt) := (conventions.find? (·.2.1 == s)).map fun e => (e.1, e.2.2)
+
+def VFmt.toStr : VFmt → Bytes → Bytes
+  | .text => textToStr | .dec => decToStr | .hex => hexToStr
+def VFmt.fromStr : VFmt → Bytes → Option Bytes
+  | .text => textFromStr | .dec => decFromStr | .hex => hexFromStr
+
+/-- `Component.String` -/
+def compToStr (c : Component) : Bytes :=
+  match convByType c.typ with
+  | some (nm, f) => nm ++ [61] ++ f.toStr c.val
+  | none => (if c.typ ≠ 8 then decStr c.typ ++ [61] else []) ++ textToStr c.val
+
+/-- `Component.CanonicalString` -/
+def compCanon (c : Component) : Bytes :=
+  (if c.typ ≠ 8 then decStr c.typ ++ [61] else []) ++ textToStr c.val
+
+/-- `Name.String` -/
+def nameToStr (n : Name) : Bytes :=
+  if n = [] then [47]
+  else
+    let body := n.flatMap fun c => 47 :: compToStr c
+    match n.getLast? with
+    | some c => if c.typ = 8 ∧ c.val = [] then body ++ [47] else body
+    | none => body
+
+/-- outcome of a parser: value, error return, or Go panic (index out of range …) -/
+inductive Res (α : Type) | ok (a : α) | err | panic
+deriving Repr, DecidableEq
+
+/-- `parseCompTypeFromStr` (after fix F-14a: the empty string is an error, not `s[0]`) -/
+def parseCompType (s : Bytes) : Res (Nat × VFmt) :=
+  match s with
+  | [] => .err
+  | c :: _ =>
+    if isAlpha c then
+      match convByName s with
+      | some (t, f) => .ok (t, f)
+      | none => .err
+    else match parseDec s with
+      | some t => .ok (t, .text)
+      | none => .err
+
+/-- split at the first '=' ; `none` when there are two or more -/
+def splitEq (s : Bytes) : Option (Option Bytes × Bytes) :=
+  match s.idxOf 61 with
+  | i => if i = s.length then some (none, s)
+         else
+           let v := s.drop (i + 1)
+           if v.contains 61 then none else some (some (s.take i), v)
+
+/-- `componentFromStrInto` -/
+def compFromStr (s : Bytes) : Res Component :=
+  match splitEq s with
+  | none => .err
+  | some (none, v) =>
+    match textFromStr v with
+    | some b => .ok ⟨8, b⟩
+    | none => .err
+  | some (some ts, v) =>
+    match parseCompType ts with
+    | .panic => .panic
+    | .err => .err
+    | .ok (t, f) =>
+      if t = 0 ∨ t > 0xffff then .err
+      else match f.fromStr v with
+        | some b => .ok ⟨t, b⟩
+        | none => .err
+
+/-- `strings.Split(s, "/")` -/
+def splitSlash (s : Bytes) : List Bytes :=
+  s.foldr (fun c acc => if c = 47 then [] :: acc else
+    match acc with
+    | [] => [[c]]
+    | h :: t => (c :: h) :: t) [[]]
+
+def mapRes {α β} (f : α → Res β) : List α → Res (List β)
+  | [] => .ok []
+  | a :: as =>
+    match f a with
+    | .panic => .panic
+    | .err => .err
+    | .ok b => match mapRes f as with
+      | .ok bs => .ok (b :: bs)
+      | .err => .err
+      | .panic => .panic
+
+/-- `NameFromStr` -/
+def nameFromStr (s : Bytes) : Res Name :=
+  let strs := splitSlash s
+  let strs := match strs with
+    | [] :: t => t
+    | l => l
+  let strs := if strs.getLast? = some [] then strs.dropLast else strs
+  mapRes compFromStr strs
+
 end Ndn.C14
